@@ -71,6 +71,15 @@ func c01Atoms() []*ref.Expr {
 	a = append(a, regexAtoms()...)
 	a = append(a, inAtoms(ref.Key(), litsL, 2)...)
 	a = append(a, ref.In(ref.Value(), ref.S("1"), ref.S("a")), ref.In(ref.Value(), ref.S("2")))
+	// key lists that repeat a key with other keys in between, written unsorted
+	k3 := func(ls ...string) *ref.Expr {
+		var items []*ref.Expr
+		for _, l := range ls {
+			items = append(items, ref.S(l))
+		}
+		return ref.In(ref.Key(), items...)
+	}
+	a = append(a, k3("a", "b", "a"), k3("c", "a", "zz", "c", "a"), k3("b", "ab", "b", "", "ab"), k3("ba", "a", "a", "ba", "a"), k3("c", "b", "a", "c", "b", "a"))
 	a = append(a, betweenAtoms(ref.Key(), litsL)...)
 	a = append(a, betweenAtoms(ref.Value(), []string{"1", "2", "a"})...)
 	a = append(a, c01FuncAtoms()...)
